@@ -3,7 +3,8 @@
    the extracted inductives; no Extract Constant. *)
 Require Extraction.
 From Coq Require Import ExtrOcamlBasic.
-From Adept Require Import Scalar GapList Tape Jacobian Buffers View.
+From Adept Require Import Scalar GapList Tape Jacobian Buffers View Engines.
+From AdeptGen Require Import Gen_Engines.
 Extraction "model.ml"
   GapList.init GapList.register1 GapList.registerN GapList.unregisterN GapList.new_recording GapList.step GapList.run
   Scalar.mkOps
@@ -11,4 +12,6 @@ Extraction "model.ml"
   Jacobian.jac_fwd_serial Jacobian.jac_rev_serial Jacobian.jac_auto Jacobian.jac_fwd_omp Jacobian.jac_rev_omp
   Buffers.bstep Buffers.brun Buffers.binit Buffers.safe Buffers.site_trace
   View.all_ix View.res View.addr View.apply_op View.apply_ops View.adm_op View.adm_ops View.den_ops View.parent View.slice_checked View.chk_slice View.lin_packed
+  Gen_Engines.pack_offset Gen_Engines.index Gen_Engines.data_size Gen_Engines.stored Gen_Engines.transpose_engine Gen_Engines.transpose_swaps_LU
+  Engines.dense Engines.read_row Engines.assign_row_targets Engines.diag_base Engines.diag_len Engines.sub_base
   Jacobian.apply_writes Jacobian.omp_blocks Jacobian.J_fwd Jacobian.J_rev.
